@@ -204,6 +204,7 @@ pub fn channel_ops() -> HashMap<usize, (u64, u64)> {
 
 pub use crate::ports::verif_broadcaster::{VQueryBroadcaster, VSlot};
 pub use crate::util::cached_rw_lock::verif::VCachedRwLock;
+pub use crate::util::task_set::verif::VTaskSet;
 
 /// Seeded delays at the protocol points of the multi-threaded executor (worker deactivation, idle detection, task
 /// scheduling).  A delay only perturbs the schedule.
